@@ -485,6 +485,16 @@ class Exec:
     def ev_Name(self, node, st):
         return [(st, self.lookup(node.id, st, node))]
 
+    def name_is_bound(self, name, st):
+        """True when `name` is shadowed by a local / module-level definition (so it is not the builtin)."""
+        fr = st.frame
+        while fr is not None:
+            if name in fr.locals:
+                return True
+            fr = fr.parent
+        m = st.frame.module
+        return name in m.defs or name in m.imports or name in m.assigns
+
     def lookup(self, name, st, node=None):
         fr = st.frame
         while fr is not None:
@@ -1061,6 +1071,76 @@ class Exec:
     def ev_GeneratorExp(self, node, st):
         return self.comprehension(node, st, list)
 
+    def ev_SetComp(self, node, st):
+        return self.comprehension(node, st, set)
+
+    # ---- comprehensions / any / all over SYMBOLICALLY-SIZED collections: desugared to the equivalent loop ----------
+    _desugar_id = [0]
+
+    def desugar_comprehension(self, node, s, itv, ctor, mode="collect"):
+        """[E for x in IT if C] / {E ...} / any(E ...) / all(E ...) with IT a symbolic collection is executed as the
+        loop it abbreviates (own scope, like Python's), so the derived loop summaries of set-level mode apply:
+            collect:  acc = [] | set();  for x in IT: if C: acc.append(E) | acc.add(E)
+            any:      r = False;         for x in IT: if C: if E: r = True; break
+            all:      r = True;          for x in IT: if C: if not E: r = False; break"""
+        gen = node.generators[0]
+        self._desugar_id[0] += 1
+        k = self._desugar_id[0]
+        acc, itn = "__comp_acc_%d" % k, "__comp_it_%d" % k
+        ld = lambda n: ast.Name(id=n, ctx=ast.Load())
+        if mode == "collect":
+            if ctor is set:
+                init = ast.Call(func=ast.Name(id="set", ctx=ast.Load()), args=[], keywords=[])
+                inner = [ast.Expr(value=ast.Call(func=ast.Attribute(value=ld(acc), attr="add", ctx=ast.Load()), args=[node.elt], keywords=[]))]
+            else:
+                init = ast.List(elts=[], ctx=ast.Load())
+                inner = [ast.Expr(value=ast.Call(func=ast.Attribute(value=ld(acc), attr="append", ctx=ast.Load()), args=[node.elt], keywords=[]))]
+        else:
+            init = ast.Constant(value=(mode == "all"))
+            test = node.elt if mode == "any" else ast.UnaryOp(op=ast.Not(), operand=node.elt)
+            inner = [ast.If(test=test, body=[ast.Assign(targets=[ast.Name(id=acc, ctx=ast.Store())], value=ast.Constant(value=(mode == "any"))), ast.Break()], orelse=[])]
+        body = inner
+        for cnd in reversed(gen.ifs):
+            body = [ast.If(test=cnd, body=body, orelse=[])]
+        loop = ast.For(target=gen.target, iter=ld(itn), body=body, orelse=[])
+        prog = [ast.Assign(targets=[ast.Name(id=acc, ctx=ast.Store())], value=init), loop]
+        for n_ in prog:
+            ast.copy_location(n_, node)
+            ast.fix_missing_locations(n_)
+        fr = Frame(s.frame.module, s.frame.func, s.frame.cls, parent=s.frame)
+        fr.locals[itn] = itv
+        s.frames.append(fr)
+        out = []
+        for s2, o in self.exec_block(prog, s):
+            val = s2.frame.locals.get(acc)
+            s2.frames.pop()
+            if o is not NORMAL:
+                out.append((s2, Abort(o) if not isinstance(o, Abort) else o))
+            else:
+                out.append((s2, val))
+        return out
+
+    def ev_any_all(self, node, st):
+        """any(<comprehension>) / all(<comprehension>): lazily, so that a symbolic collection is handled by a loop summary."""
+        comp = node.args[0]
+        gen = comp.generators[0]
+        mode = node.func.id
+        out = []
+        for s, itv in self.ev(gen.iter, st):
+            if isinstance(itv, Abort):
+                out.append((s, itv))
+                continue
+            if hasattr(itv, "symbolic_for") or hasattr(itv, "comprehension"):
+                out.extend(self.desugar_comprehension(comp, s, itv, list, mode=mode))
+                continue
+            for s2, items in self.comprehension_items(comp, s, itv, list):
+                if isinstance(items, Abort):
+                    out.append((s2, items))
+                    continue
+                r = self.lib.call_builtin(self, s2, mode, [items], {}, node)
+                out.extend(r if isinstance(r, Paths) else [(s2, r)])
+        return out
+
     def comprehension(self, node, st, ctor):
         if len(node.generators) != 1:
             raise Unsupported("nested comprehension generators")
@@ -1070,9 +1150,16 @@ class Exec:
             if isinstance(itv, Abort):
                 out.append((s, itv))
                 continue
-            if hasattr(itv, "comprehension"):
-                out.extend(itv.comprehension(self, s, node))
+            if hasattr(itv, "symbolic_for") or hasattr(itv, "comprehension"):
+                out.extend(self.desugar_comprehension(node, s, itv, ctor))
                 continue
+            out.extend(self.comprehension_items(node, s, itv, ctor))
+        return out
+
+    def comprehension_items(self, node, s, itv, ctor):
+        gen = node.generators[0]
+        out = []
+        if True:
             items = self.iter_concrete(itv)
             fr = Frame(s.frame.module, s.frame.func, s.frame.cls, parent=s.frame)
             s.frames.append(fr)
@@ -1141,6 +1228,10 @@ class Exec:
         # logging.* calls are dropped (DESIGN 2.1)
         if self.is_logging_call(node):
             return [(st, None)]
+        if (isinstance(node.func, ast.Name) and node.func.id in ("any", "all") and len(node.args) == 1 and not node.keywords
+                and isinstance(node.args[0], (ast.GeneratorExp, ast.ListComp)) and len(node.args[0].generators) == 1
+                and not self.name_is_bound(node.func.id, st)):
+            return self.ev_any_all(node, st)
         kn = [k for k in node.keywords if k.arg is not None]
         star = [k for k in node.keywords if k.arg is None]
         nodes = [node.func] + list(node.args)
@@ -1840,6 +1931,9 @@ class Exec:
             if isinstance(itv, L.GArr):
                 out.extend(self.for_guarded(stmt, s, itv))
                 continue
+            if isinstance(itv, L.GList):
+                out.extend(self.for_guarded(stmt, s, L.GArr(itv.items, None, "o")))
+                continue
             items = self.iter_concrete(itv)
             paths = [(s, NORMAL)]
             for item in items:
@@ -1921,6 +2015,20 @@ def _merge_val(ex, c, a, b, memo):
         return r
     if isinstance(a, list) and isinstance(b, list) and len(a) == len(b):
         r = [_merge_val(ex, c, x, y, memo) for x, y in zip(a, b)]
+        memo[k] = r
+        return r
+    if isinstance(a, (list, L.GList)) and isinstance(b, (list, L.GList)):
+        # lists that differ by appended items: the common prefix is merged item-wise, the extra tail is guarded
+        ga, gb = L.GList.of(a), L.GList.of(b)
+        longer, shorter, cond = (ga, gb, c) if len(ga.items) >= len(gb.items) else (gb, ga, z3.Not(c))
+        items = []
+        for (g1, v1), (g2, v2) in zip(ga.items, gb.items):
+            same_g = (g1 is g2) or (isz(g1) and isz(g2) and g1.eq(g2)) or (not isz(g1) and not isz(g2) and g1 == g2)
+            if not same_g:
+                raise Unsupported("merge of guarded lists whose common items have different guards")
+            items.append((g1, _merge_val(ex, c, v1, v2, memo)))
+        items += [(V.land(cond, g), v) for g, v in longer.items[len(shorter.items):]]
+        r = L.GList(items)
         memo[k] = r
         return r
     if isinstance(a, tuple) and isinstance(b, tuple) and len(a) == len(b):
